@@ -44,6 +44,7 @@ func (g *Generator[V]) Draw(t *T, label string) V {
 		t.tb.Helper()
 	}
 
+	t.attempts++
 	v := g.value(t)
 
 	if len(t.refDraws) > 0 {
